@@ -55,18 +55,21 @@ structure Proto where
   start : Int      -- `collection.start` (first part's start for an origin-spanning location)
   len : Int        -- `len(collection.location)`
   product : Int    -- rank of `collection.product`
+  coreStart : Int  -- `int(collection.core_location.start)`
+  coreEnd : Int    -- `int(collection.core_location.end)`
   uid : Int
 deriving DecidableEq, Repr, Inhabited
 
 /-- `reduction(collection)`; `cross` = `self.crosses_origin()`, `L` = `self.location.parts[0].end`
     (the record length for an origin-spanning region); `start < L / 2` ⇔ `2·start < L` -/
-def protoKey (cross : Bool) (L : Int) (p : Proto) : Int × Int × Int :=
-  if cross && decide (2 * p.start < L) then (p.start + L, -p.len, p.product)
-  else (p.start, -p.len, p.product)
+def protoKey (cross : Bool) (L : Int) (p : Proto) : Int × Int × Int × Int × Int :=
+  if cross && decide (2 * p.start < L) then (p.start + L, -p.len, p.product, p.coreStart, p.coreEnd)
+  else (p.start, -p.len, p.product, p.coreStart, p.coreEnd)
 
-/-- tuple comparison `a <= b` of 3-tuples -/
-def keyLe (a b : Int × Int × Int) : Bool :=
-  decide (a.1 < b.1 ∨ (a.1 = b.1 ∧ (a.2.1 < b.2.1 ∨ (a.2.1 = b.2.1 ∧ a.2.2 ≤ b.2.2))))
+/-- tuple comparison `a <= b` of the 5-tuples -/
+def keyLe (a b : Int × Int × Int × Int × Int) : Bool :=
+  decide (a.1 < b.1 ∨ (a.1 = b.1 ∧ (a.2.1 < b.2.1 ∨ (a.2.1 = b.2.1 ∧ (a.2.2.1 < b.2.2.1 ∨ (a.2.2.1 = b.2.2.1 ∧
+    (a.2.2.2.1 < b.2.2.2.1 ∨ (a.2.2.2.1 = b.2.2.2.1 ∧ a.2.2.2.2 ≤ b.2.2.2.2))))))))
 
 def protoLe (cross : Bool) (L : Int) (a b : Proto) : Bool := keyLe (protoKey cross L a) (protoKey cross L b)
 
@@ -78,6 +81,11 @@ def uniqueProtoclusters (cross : Bool) (L : Int) (enum : List Proto) : List Prot
     `(start, -len)` only (`CDSCollection.__lt__` between areas neither of which contains the other) -/
 def protoLeOld (a b : Proto) : Bool := decide (a.start < b.start ∨ (a.start = b.start ∧ -a.len ≤ -b.len))
 def uniqueProtoclustersOld (enum : List Proto) : List Proto := sortBy protoLeOld enum
+
+/-- between D54 and D64 the key was `(start, −len, product)` without the core -/
+def protoLeNoCore (a b : Proto) : Bool :=
+  decide (a.start < b.start ∨ (a.start = b.start ∧ (-a.len < -b.len ∨ (-a.len = -b.len ∧ a.product ≤ b.product))))
+def uniqueProtoclustersNoCore (enum : List Proto) : List Proto := sortBy protoLeNoCore enum
 
 /-! ### `CDSResults.to_json`, `CDSResults.annotate`, `run_on_record` (D51, D51b, D53) -/
 
@@ -114,6 +122,24 @@ def annotateOld (existing : List GeneFn) (prevIds : List Int) (defs : List (Int 
   let allMatching := prevIds ++ defs.flatMap (·.2)
   let withCore := defs.foldl (fun acc kv => kv.2.foldl (fun acc d => addNew acc ⟨true, d, some kv.1⟩) acc) existing
   domains.foldl (fun acc d => if allMatching.contains d then acc else addNew acc ⟨false, d, none⟩) withCore
+
+/-- `SecMetQualifier.add_domains` on the names: the gene's existing domain ids (empty when the
+    qualifier is created by `annotate`), then the new ones, every name once (first occurrence) -/
+def domainIdsAfter (prevIds newDomains : List Int) : List Int := ASV.Refine.firstOcc (prevIds ++ newDomains)
+
+/-- `CDSResults.annotate` from the results' own domain list: `self.domains` are added to the
+    qualifier first, the ADDITIONAL pass then runs over the qualifier's domains -/
+def annotateFull (existing : List GeneFn) (prevIds : List Int) (defs : List (Int × List Int)) (newDomains : List Int) :
+    List GeneFn :=
+  annotate existing prevIds defs (domainIdsAfter prevIds newDomains)
+
+/-- `gather_record_areas`: `protoclusters_by_obj = {proto: i for i, proto in enumerate(region.get_unique_protoclusters())}`
+    and, per candidate cluster, `[protoclusters_by_obj[proto] for proto in candidate.protoclusters]`: the numbers under
+    which the region's JSON lists and references its protoclusters -/
+def areasProtoclusterNumbers (cross : Bool) (L : Int) (enum : List Proto) (candidates : List (List Proto)) :
+    List Proto × List (List Nat) :=
+  let unique := uniqueProtoclusters cross L enum
+  (unique, candidates.map fun members => members.map fun p => unique.idxOf p)
 
 /-- `cluster_types = sorted(ruleset.get_rule_names())` (`get_rule_names` returns a set) -/
 def enabledTypes (ruleNames : List Int) : List Int := sortedNames ruleNames
